@@ -5,7 +5,9 @@ import os
 from .. import core
 from ..core import Prop
 
-MAXSZ = 16 * 1024 * 1024
+MAXSZ = 16 * 1024 * 1024      # maxClientResponseSize, for the generator's book-keeping only (the case files name
+SRVSZ = 1024 * 1024           # sizes RELATIVE to the limits; model and Go side take the values from the code)
+COUTP = 15                    # [COUTP, name, marker, base, delta]: the answer padded to an encoded size of <base> + delta
 
 # action codes (C10_Model.un_action)
 SC, SL, WOK, WFAIL, COUT, CCO, CCI, PEXIT, NOTICE, RSTEP, RCLOSE, RDRAIN, CLOSESEND, STOP, WAIT = range(15)
@@ -203,6 +205,10 @@ class Sim:
             self.mu = None
         elif op == COUT:
             self.buf += a[1]
+        elif op == COUTP:
+            total = (0, SRVSZ, MAXSZ)[a[3]] + a[4]
+            nm = a[1].encode() if isinstance(a[1], str) else a[1]
+            self.buf += resp(nm, a[2]) if total <= MAXSZ else total.to_bytes(4, "big")
         elif op == CCO:
             self.out_open = False
         elif op == CCI:
@@ -735,10 +741,91 @@ def proc_cases(rng, quick):
                         yield ["c10.proc", names[:n], r, order, failed, peek]
 
 
+# sizes of an answer around the two response-size limits: (base, delta), base 1 = the limit of the
+# server-response reader, base 2 = the limit of the client-output reader, base 0 = absolute
+LIMIT_SIZES = [(1, -1), (1, 0), (1, 1), (0, 2 * 1024 * 1024), (2, -1), (2, 0), (2, 1)]
+
+
+def limit_case(names, order, big, size, shape="batch", second=None):
+    """requests `names`; the client answers `order`; the answer to `big` has the encoded size `size`
+    (and the one to `second`, if any, 2 MiB + 3), the others are small; then a late request, quiet end"""
+    sim = Sim()
+
+    def forced():
+        while sim.forced() is not None:
+            sim.apply(sim.forced())
+
+    def answer(x):
+        tg = ("r-" + x).encode()
+        if not (sim.alive and sim.out_open and sim.reader == "run" and sim.buf == b""):
+            return
+        if x == big:
+            sim.apply([COUTP, x, tg, size[0], size[1]])
+        elif x == second:
+            sim.apply([COUTP, x, tg, 0, 2 * 1024 * 1024 + 3])
+        else:
+            sim.apply([COUT, resp(x, tg)])
+        if sim.can_rstep():
+            sim.apply([RSTEP])
+            forced()
+
+    todo = list(order)
+    for i, nm in enumerate(names):
+        sim.apply([SC, i, nm])
+        forced()
+        if shape == "early" and sim.mu == i and todo and todo[0] == nm:
+            answer(todo.pop(0))             # the answer arrives while the request's write is in flight
+        if sim.mu == i and sim.in_open and sim.alive:
+            sim.apply([WOK, i])
+            forced()
+    for x in todo:
+        answer(x)
+    if sim.can_send():
+        sim.apply([SC, len(names), "late"])
+        forced()
+    finish(sim)
+    return case_of(sim)
+
+
+def limit_cases(rng, quick):
+    """an answer whose encoded size lies between the two limits (and at each end of the window, and just
+    above the client limit) in EVERY run; few multi-megabyte bodies: each case carries one or two"""
+    three = ["a", "b", "c"]
+    for size in LIMIT_SIZES:
+        huge = size[0] == 2
+        # the big answer in the middle of the answers, all tests answered
+        yield limit_case(three, ["a", "b", "c"], "b", size)
+        if huge and size[1] != 0 and quick:
+            continue
+        # ... first, in a random order of the others, one test left unanswered
+        rest = rng.sample(["a", "c"], 2)
+        yield limit_case(three, ["b"] + rest[:1], "b", size)
+        if huge:
+            continue
+        # ... last; as the only answer; while its request's write is still in flight
+        yield limit_case(three, rest + ["b"], "b", size)
+        yield limit_case(["b"], ["b"], "b", size)
+        yield limit_case(three, ["a", "b"], "b", size, shape="early")
+        yield limit_case(["a", "b"], ["b", "a"], "b", size, shape="early")
+    # two answers inside the window in one run, and random sizes inside the window
+    yield limit_case(three, ["c", "a", "b"], "c", (1, 1), second="a")
+    for _ in range(2 if quick else 12):
+        k = rng.randint(2, 4)
+        nms = NAMES[:k]
+        order = rng.sample(nms, rng.randint(1, k))
+        delta = rng.choice([rng.randint(2, 4096), rng.randint(2, 3 * 1024 * 1024)])
+        yield limit_case(nms, order, rng.choice(order), (1, delta), shape=rng.choice(["batch", "early"]))
+    if not quick:
+        for d in (-2, 2, 1 << 20):
+            yield limit_case(three, ["a", "b", "c"], "b", (2, d))
+        for d in range(-8, 9):
+            yield limit_case(three, ["a", "b", "c"], "b", (1, d))
+
+
 class C10(Prop):
     id = "C10"
     props = "C10_Props"
-    coq_files = ("Base", "C10_Consts", "C10_Model", "C10_Spec", "C10_Proofs", "C10_Props")
+    coq_files = ("Base", "C10_Consts", "C10_Model", "C10_Spec", "C10_Proofs", "C10_LimitProofs", "C10_Props")
     models = ("C10_Model",)
     consts = ("cc",)
     packages = {"cc": "internal/app/connectconformance"}
@@ -813,6 +900,7 @@ class C10(Prop):
 
     def generate(self, rng, tier):
         quick = tier == "quick"
+        yield from limit_cases(rng, quick)
         yield from proc_cases(rng, quick)
         yield from write_failures(quick)
         yield from two_message_outputs(quick)
